@@ -1,5 +1,51 @@
+//! C13 monitor: hash-to-field / hash-to-curve (RFC 9380). Runs the real code on generated workloads,
+//! checks the in-process predicates (on-curve, sgn0 rule, subgroup, determinism, totality) and records
+//! an event log that `/verif/pyref/check_h2c.py` re-derives with an independent Python implementation.
 use monitor::*;
+use std::time::Instant;
+
+mod c13;
+mod toy;
+
 fn main() {
     let args = Args::parse();
-    panic!("mon_h2c does not serve property {} yet", args.prop);
+    let t0 = Instant::now();
+    let (items, rule): (Vec<Item>, &str) = match args.prop.as_str() {
+        "C13" => (c13::items(&args), c13::RULE),
+        p => panic!("mon_h2c does not serve property {p}"),
+    };
+    let mut rep = run_items(&args, items);
+    // ---- write the event log next to the report
+    let ev_path = match (args.extra.get("events"), &args.out) {
+        (Some(p), _) => p.clone(),
+        (None, Some(o)) => format!("{o}.events.jsonl"),
+        (None, None) => format!("/var/tmp/mon_h2c.{}.events.jsonl", std::process::id()),
+    };
+    let n_events = match c13::write_events(&ev_path) {
+        Ok(n) => n,
+        Err(e) => {
+            rep.harness_errors.push(format!("cannot write event log {ev_path}: {e}"));
+            0
+        },
+    };
+    rep.note(format!("event log: {n_events} events in {ev_path} (checked offline by pyref/check_h2c.py)"));
+    // ---- same as monitor::finish, plus the event_log key
+    let mut v = rep.to_json(&args, "mon_h2c", rule, t0.elapsed().as_secs_f64());
+    v["event_log"] = json!(ev_path);
+    v["events"] = json!(n_events);
+    let s = serde_json::to_string_pretty(&v).unwrap();
+    match &args.out {
+        Some(p) => std::fs::write(p, s).expect("write report"),
+        None => println!("{s}"),
+    }
+    let code = if !rep.violations.is_empty() {
+        1
+    } else if !rep.harness_errors.is_empty()
+        || v["required_missing"].as_array().map(|a| !a.is_empty()).unwrap_or(false)
+    {
+        2
+    } else {
+        0
+    };
+    std::process::exit(code)
 }
